@@ -1,3 +1,4 @@
+import PW.Proofs.RemoveAt
 import PW.Proofs.Grid
 import PW.Proofs.SpecLemmas
 import PW.Proofs.LayoutLemmas
@@ -42,6 +43,23 @@ theorem unmeasured_block_untouched (l : Layout.Layout) (M : List Nat) (b : Layou
     (hne : b.members ≠ []) (hm : ∀ x ∈ b.members, x ∉ M) : b ∈ Layout.removeMeasured l M :=
   Layout.removeMeasured_bystander l M b hb hne hm
 
+/-- **the survivors are left with their reduced state given the outcome**: dropping the coordinate of
+a destroyed subsystem from the collapsed state (`removeAt`, what the specification machine does when a
+measured subsystem is retired) is the partial trace of the collapsed state over that subsystem — every
+space, every position, every outcome below the cutoff, every entry. -/
+theorem survivors_hold_the_conditional_reduced_state {R : Type} [CommRing R] (dims : List Nat) (p o : Nat)
+    (hp : p < dims.length) (ho : o < dims.getD p 0) (ρ : Tensor R) (r c : List Nat)
+    (hr : r.length = dims.length - 1) (hc : c.length = dims.length - 1) :
+    removeAt dims p o (projectOn dims p o ρ) (r ++ c)
+      = reduceTo dims (survivors dims.length p) (projectOn dims p o ρ) (r ++ c) :=
+  removeAt_eq_reduceTo dims p o hp ho ρ r c hr hc
+
+/-- the survivors are all other positions, in their order -/
+theorem survivors_are_the_others (n p x : Nat) (hp : p < n) : x ∈ survivors n p ↔ x < n ∧ x ≠ p :=
+  mem_survivors n p x hp
+
+example : survivors 4 1 = [0, 2, 3] := by decide
+
 end PW.Props.C05
 
 #print axioms PW.Props.C05.collapse_idempotent
@@ -51,3 +69,5 @@ end PW.Props.C05
 #print axioms PW.Props.C05.measured_leave_their_block
 #print axioms PW.Props.C05.survivors_keep_order
 #print axioms PW.Props.C05.unmeasured_block_untouched
+#print axioms PW.Props.C05.survivors_hold_the_conditional_reduced_state
+#print axioms PW.Props.C05.survivors_are_the_others
